@@ -880,19 +880,19 @@ func runC15(c C15Case, cs *kit.CaseStats) error {
 
 func genC15(t *rapid.T) C15Case {
 	var c C15Case
-	maxOps := 12
+	maxOps := 14
 	if kit.Thorough() {
 		maxOps = 24
 	}
 	n := rapid.IntRange(2, maxOps).Draw(t, "nops")
-	init := rapid.IntRange(0, 6).Draw(t, "ninit")
+	init := rapid.IntRange(0, 8).Draw(t, "ninit")
 	hub := rapid.IntRange(0, 2).Draw(t, "hub") // the account most initial attachments go to, so that 3-5 pools pile up on it
 	for i := 0; i < n; i++ {
 		op := C15Op{C: rapid.IntRange(0, 1).Draw(t, "c"), A: rapid.IntRange(0, 2).Draw(t, "a"), P: rapid.IntRange(0, 4).Draw(t, "p")}
 		k := rapid.IntRange(0, 23).Draw(t, "op")
 		if i < init {
 			k = 9 // start with attachments so that pooled debits are reachable
-			if rapid.IntRange(0, 4).Draw(t, "tohub") > 0 {
+			if rapid.IntRange(0, 5).Draw(t, "tohub") > 0 {
 				op.A = hub
 			}
 		}
@@ -980,7 +980,7 @@ func genC15(t *rapid.T) C15Case {
 
 var c15Prop = kit.Prop[C15Case]{
 	ID:   "C15",
-	Rule: "sequences (2..12, thorough 2..24) over 3 accounts, 5 pools and 2 contracts against the real rhp4.Server: fund, replenish accounts/pools (targets below, at and above the current balance, mixed keys), attach/detach (valid incl. batches and idempotent repeats; signed by the wrong key; bound to another host key; expired; never-funded pool), read/write/verify with the drawable funds (own balance + attached pools, split by drawn weights) topped up to cost-1, cost or cost+1, unknown sectors, invalid account tokens, a renter that stops / stalls / truncates the request or the data stream or does not read the answer, balance queries. Oracle from the recorded Contractor/Sectors calls and a balance model: every credit batch is carried by exactly one doubly-signed revision moving the same total from renter to host; every debit carries core's price of the request and precedes the single sector operation; insufficient funds / invalid token / unknown sector => no data, no sector operation, no balance change; replenish leaves max(before, target); rejected attach/detach never reach the contractor; balances and the ordered attachment table (read by value) equal the model (own balance first, then pools in attachment order) after every step. Non-trivial = a debit that drains the account's own balance and continues into a pool, or a request exactly one hasting short; distinct by hash of the case.",
+	Rule: "sequences (2..14, thorough 2..24) over 3 accounts, 5 pools and 2 contracts against the real rhp4.Server: fund, replenish accounts/pools (targets below, at and above the current balance, mixed keys), attach/detach (valid incl. batches and idempotent repeats; signed by the wrong key; bound to another host key; expired; never-funded pool), read/write/verify with the drawable funds (own balance + attached pools, split by drawn weights) topped up to cost-1, cost or cost+1, unknown sectors, invalid account tokens, a renter that stops / stalls / truncates the request or the data stream or does not read the answer, balance queries. Oracle from the recorded Contractor/Sectors calls and a balance model: every credit batch is carried by exactly one doubly-signed revision moving the same total from renter to host; every debit carries core's price of the request and precedes the single sector operation; insufficient funds / invalid token / unknown sector => no data, no sector operation, no balance change; replenish leaves max(before, target); rejected attach/detach never reach the contractor; balances and the ordered attachment table (read by value) equal the model (own balance first, then pools in attachment order) after every step. Non-trivial = a debit that drains the account's own balance and continues into a pool, or a request exactly one hasting short; distinct by hash of the case.",
 	Assumptions: []string{
 		"host = rhp4.Server over the repository's reference EphemeralContractor / EphemeralSectorStore, in-memory transport",
 		"a replenish request may list a key twice (the request validation does not exclude it); the expectation is the statement's: the balance ends at max(before, target); a host that refuses such a request outright is accepted too",
